@@ -5,7 +5,7 @@ import time
 
 import z3
 
-from .values import (F64, LazyStr, Opaque, SymBool, SymBV, SymBytes, SymFloat, SymInt, SymStr, Unsupported,
+from .values import (SymDT, SymTD, F64, LazyStr, Opaque, SymBool, SymBV, SymBytes, SymFloat, SymInt, SymStr, Unsupported,
                      as_bytes_list, bv_common, bv_const, chars, is_sym, mkbool, mkbv, mkbytes, mkint, mkstr, zbool,
                      zint)
 
@@ -43,6 +43,9 @@ class OpsMixin:
             return mkbv(-x, True)
         if isinstance(v, SymBool):
             return mkint(-zint(v))
+        if isinstance(v, SymTD):
+            from . import dtmodels
+            return dtmodels.neg(self, v)
         if isinstance(v, SymFloat):
             if v.ival is not None:
                 return SymFloat(ival=self.neg(v.ival))
@@ -59,6 +62,9 @@ class OpsMixin:
 
     # ---------------------------------------------------------------- binop
     def binop(self, op, a, b):
+        if isinstance(a, (SymDT, SymTD)) or isinstance(b, (SymDT, SymTD)):
+            from . import dtmodels
+            return dtmodels.binop(self, op, a, b)
         if isinstance(a, bool) and is_sym(b):
             a = int(a)
         if isinstance(b, bool) and is_sym(a):
@@ -211,6 +217,16 @@ class OpsMixin:
         hit = self.divmod_cache.get(key)
         if hit is not None:
             return hit
+        # exact multiples: (c*x) div k with k | c needs no fresh variables
+        t = a.t
+        if z3.is_mul(t) and t.num_args() == 2 and k > 0:
+            c, x = t.arg(0), t.arg(1)
+            if z3.is_int_value(x):
+                c, x = x, c
+            if z3.is_int_value(c) and c.as_long() % k == 0:
+                res = (mkint(x * (c.as_long() // k)), 0)
+                self.divmod_cache[key] = res
+                return res
         self.fresh_n += 1
         q = z3.Int(f"_q{self.fresh_n}")
         r = z3.Int(f"_r{self.fresh_n}")
@@ -420,6 +436,9 @@ class OpsMixin:
             if t is ast.NotIn:
                 return self.not_(r)
             return r
+        if isinstance(a, (SymDT, SymTD)) or isinstance(b, (SymDT, SymTD)):
+            from . import dtmodels
+            return dtmodels.compare(self, t, a, b)
         if isinstance(a, LazyStr):
             a = self.force_str(a)
         if isinstance(b, LazyStr):
